@@ -321,4 +321,28 @@ theorem stmts_emit (F : Fmt) {s : Src} (h : DsWF s) (t : Triple) (g : Name) :
   · exact stmts_emitJsonld h t g
   · exact stmts_emitPatch h t g
 
+/-! ### glue: identity renaming, images of equal sets -/
+
+theorem mapTerm_id (t : Term) : mapTerm id t = t := by cases t <;> rfl
+theorem mapName_id (g : Name) : mapName id g = g := by cases g <;> rfl
+theorem mapQuad_id (q : Quad) : mapQuad id q = q := by
+  obtain ⟨⟨a, b, c⟩, g⟩ := q
+  simp [mapQuad, mapTriple, mapTerm_id, mapName_id]
+
+theorem map_mapQuad_id (d : List Quad) : d.map (mapQuad id) = d := by
+  induction d with
+  | nil => rfl
+  | cons q qs ih => rw [List.map_cons, ih, mapQuad_id]
+
+theorem setEq_stmts_emit (F : Fmt) {s : Src} (h : DsWF s) : SetEq (stmts (emit F s)) s.d := by
+  rintro ⟨t, g⟩
+  exact stmts_emit F h t g
+
+theorem setEq_map {a b : List Quad} (g : Quad → Quad) (h : SetEq a b) : SetEq (a.map g) (b.map g) := by
+  intro x
+  simp only [List.mem_map]
+  constructor
+  · rintro ⟨y, hy, rfl⟩; exact ⟨y, (h y).mp hy, rfl⟩
+  · rintro ⟨y, hy, rfl⟩; exact ⟨y, (h y).mpr hy, rfl⟩
+
 end RV.C06
